@@ -357,6 +357,27 @@ func (e *Engine) discharge1(o *Obligation, dir string, idx int, timeoutS int, se
 			return
 		default:
 			o.CrossChecked = "not confirmed (" + other.name + ": " + r.status + ")"
+			// z3 5.1.0 answered unsat wrongly three times during development while z3 4.8.12 did not: when cvc5 has
+			// no answer, the older z3 is asked as a third opinion on the same problem
+			if strings.HasPrefix(win.solver, "z3-5") {
+				third := solvers[2]
+				tf := write(third)
+				if winFile != "" {
+					tf = winFile
+				}
+				r3 := runSolver(context.Background(), third, tf, 8, seed)
+				switch r3.status {
+				case "unsat":
+					o.CrossChecked = "confirmed by " + third.name + " (" + other.name + ": " + r.status + ")"
+				case "sat":
+					o.Status = "conflict"
+					o.Solver = win.solver + " vs " + third.name
+					o.Time = win.secs + r.secs + r3.secs
+					o.Output = fmt.Sprintf("SOLVER DISAGREEMENT: %s answered unsat, %s answered sat on the same problem\n[%s %.2fs] %s", win.solver, third.name, third.name, r3.secs, firstLines(r3.output, 20))
+					o.SMTFile = file
+					return
+				}
+			}
 		}
 	}
 	o.Status = win.status
